@@ -115,6 +115,8 @@ class XYContainer(IndexedContainer):
             self._data = _new_data.T.copy()
         else:
             raise ValueError("XYContainer data length must be 2 in at least one axis! " "Got shape: %r..." % (_new_data.shape,))
+        for _err_dict in self._error_dicts.values():
+            _err_dict["err"].reference = self._get_data_for_axis(_err_dict["axis"])
         self._clear_total_error_cache()
 
     @property
@@ -310,7 +312,7 @@ class XYContainer(IndexedContainer):
             matrix_type=matrix_type,
             err_val=err_val,
             relative=relative,
-            reference=lambda: self._get_error_reference(axis),
+            reference=lambda: self._get_error_reference(_axis),
         )
         _err.check_cov_mat_symmetry()
         _name = self._add_error_object(name=name, error_object=_err, axis=_axis)
